@@ -8,8 +8,8 @@ package checks
 
 import (
 	"encoding/binary"
-	"encoding/json"
 	"encoding/hex"
+	"encoding/json"
 	"fmt"
 	"hash/crc32"
 	"strings"
